@@ -44,7 +44,7 @@ var leadOWS = []string{" ", " ", " ", "", "  ", "\t"}
 var trailOWS = []string{"", "", "", " ", "\t"}
 
 func recase(rt *rapid.T, name string) string {
-	switch rapid.IntRange(0, 5).Draw(rt, "case") {
+	switch irange(rt, 0, 5, "case") {
 	case 0:
 		return strings.ToLower(name)
 	case 1:
@@ -67,36 +67,63 @@ func recase(rt *rapid.T, name string) string {
 }
 
 func line(rt *rapid.T, name, value string) kv {
-	return kv{recase(rt, name), rapid.SampledFrom(leadOWS).Draw(rt, "lead") + value + rapid.SampledFrom(trailOWS).Draw(rt, "trail")}
+	return kv{recase(rt, name), sample(rt, leadOWS, "lead") + value + sample(rt, trailOWS, "trail")}
+}
+
+// rapid's integer generators are deliberately biased towards small values, which would make
+// every "rare" grammar branch common. All structural choices therefore go through one 64-bit
+// draw that is scrambled (splitmix64); the draw 0 - what rapid shrinks towards - always means
+// "first alternative / feature absent", so shrinking still removes features.
+func scramble(x uint64) uint64 {
+	x += 0x9e3779b97f4a7c15
+	x = (x ^ (x >> 30)) * 0xbf58476d1ce4e5b9
+	x = (x ^ (x >> 27)) * 0x94d049bb133111eb
+	return x ^ (x >> 31)
+}
+
+func pick(rt *rapid.T, n int, label string) int {
+	x := rapid.Uint64().Draw(rt, label)
+	if x == 0 || n <= 1 {
+		return 0
+	}
+	return int(scramble(x) % uint64(n))
 }
 
 func chance(rt *rapid.T, pct int, label string) bool {
-	return rapid.IntRange(0, 99).Draw(rt, label) < pct
+	x := rapid.Uint64().Draw(rt, label)
+	if x == 0 {
+		return false
+	}
+	return int(scramble(x)%100) < pct
 }
+
+func irange(rt *rapid.T, lo, hi int, label string) int { return lo + pick(rt, hi-lo+1, label) }
+
+func sample[T any](rt *rapid.T, s []T, label string) T { return s[pick(rt, len(s), label)] }
 
 var bodyLens = []int{0, 1, 2, 3, 100, 1000, 4095, 4096, 4097, 8192, 20000, 70000}
 
 func genBody(rt *rapid.T, kinds []int, allowBig bool) bodySpec {
-	b := bodySpec{Kind: rapid.SampledFrom(kinds).Draw(rt, "bodykind"), Seed: rapid.Uint64().Draw(rt, "bodyseed")}
+	b := bodySpec{Kind: sample(rt, kinds, "bodykind"), Seed: rapid.Uint64().Draw(rt, "bodyseed")}
 	if b.Kind == bodyNone {
 		return b
 	}
-	switch rapid.IntRange(0, 9).Draw(rt, "lenclass") {
+	switch irange(rt, 0, 9, "lenclass") {
 	case 0, 1, 2:
 		hi := len(bodyLens) - 1
 		if !allowBig {
 			hi = 5
 		}
-		b.Len = bodyLens[rapid.IntRange(0, hi).Draw(rt, "lenidx")]
+		b.Len = bodyLens[irange(rt, 0, hi, "lenidx")]
 	case 3:
-		b.Len = rapid.IntRange(4090, 4100).Draw(rt, "len4k")
+		b.Len = irange(rt, 4090, 4100, "len4k")
 	default:
-		b.Len = rapid.IntRange(0, 300).Draw(rt, "len")
+		b.Len = irange(rt, 0, 300, "len")
 	}
 	if b.Kind == bodyChunked {
 		rest := b.Len
 		for rest > 0 {
-			n := rapid.IntRange(1, max(1, min(rest, 5000))).Draw(rt, "chunk")
+			n := irange(rt, 1, max(1, min(rest, 5000)), "chunk")
 			if chance(rt, 30, "restchunk") {
 				n = rest
 			}
@@ -123,41 +150,41 @@ func genRequest(rt *rapid.T, host string, connect bool, last bool, allowBig bool
 		}
 		return r
 	}
-	r.Method = rapid.SampledFrom(methodPool).Draw(rt, "method")
+	r.Method = sample(rt, methodPool, "method")
 	// target
-	nseg := rapid.IntRange(0, 4).Draw(rt, "nseg")
+	nseg := irange(rt, 0, 4, "nseg")
 	var sb strings.Builder
 	for range nseg {
 		sb.WriteString("/")
-		sb.WriteString(rapid.SampledFrom(segPool).Draw(rt, "seg"))
+		sb.WriteString(sample(rt, segPool, "seg"))
 	}
 	if nseg == 0 || chance(rt, 20, "trailing-slash") {
 		sb.WriteString("/")
 	}
 	r.Path = sb.String()
-	r.Query = rapid.SampledFrom(queryPool).Draw(rt, "query")
+	r.Query = sample(rt, queryPool, "query")
 	r.OriginForm = chance(rt, 10, "origin-form")
 	if r.OriginForm {
-		r.HostField = rapid.SampledFrom(leadOWS).Draw(rt, "hlead") + host
+		r.HostField = sample(rt, leadOWS, "hlead") + host
 	} else {
 		r.Authority = host
 		if chance(rt, 8, "empty-path") && !(r.Method == "OPTIONS" && r.Query == "") {
 			// RFC 9112 3.2.4 (OPTIONS with empty path means "*") is outside this check
 			r.Path = ""
 		}
-		r.HostField = rapid.SampledFrom(leadOWS).Draw(rt, "hlead") + host
+		r.HostField = sample(rt, leadOWS, "hlead") + host
 		if chance(rt, 6, "host-field-mismatch") {
 			r.HostField = " other.example"
 		}
 	}
 	// end-to-end fields
-	ne := rapid.IntRange(0, 7).Draw(rt, "ne2e")
+	ne := irange(rt, 0, 7, "ne2e")
 	for range ne {
-		h := rapid.SampledFrom(reqE2EPool).Draw(rt, "e2e")
+		h := sample(rt, reqE2EPool, "e2e")
 		r.Hdr = append(r.Hdr, line(rt, h.K, h.V))
 	}
 	if chance(rt, 75, "ua") {
-		r.Hdr = append(r.Hdr, line(rt, "User-Agent", rapid.SampledFrom([]string{"curl/8.5.0", "Mozilla/5.0 (X11; Linux x86_64)", "x"}).Draw(rt, "uaval")))
+		r.Hdr = append(r.Hdr, line(rt, "User-Agent", sample(rt, []string{"curl/8.5.0", "Mozilla/5.0 (X11; Linux x86_64)", "x"}, "uaval")))
 	}
 	// body
 	bodyPct := 10
@@ -191,7 +218,7 @@ func genRequest(rt *rapid.T, host string, connect bool, last bool, allowBig bool
 		hop("TE", "trailers", 70)
 	}
 	if chance(rt, 15, "upgrade") {
-		hop("Upgrade", rapid.SampledFrom([]string{"websocket", "h2c", "HTTP/3.0"}).Draw(rt, "upval"), 70)
+		hop("Upgrade", sample(rt, []string{"websocket", "h2c", "HTTP/3.0"}, "upval"), 70)
 	}
 	if chance(rt, 25, "xhop1") {
 		hop("X-Hop1", "secret-1", 100)
@@ -204,7 +231,7 @@ func genRequest(rt *rapid.T, host string, connect bool, last bool, allowBig bool
 	}
 	if chance(rt, 6, "nominate-e2e") && len(r.Hdr) > 0 {
 		// a field that is present and would otherwise be end-to-end
-		h := r.Hdr[rapid.IntRange(0, len(r.Hdr)-1).Draw(rt, "nom-idx")]
+		h := r.Hdr[irange(rt, 0, len(r.Hdr)-1, "nom-idx")]
 		if c := canon(h.K); c != "user-agent" || chance(rt, 30, "nominate-ua") {
 			tokens = append(tokens, h.K)
 		}
@@ -231,7 +258,7 @@ func genRequest(rt *rapid.T, host string, connect bool, last bool, allowBig bool
 			}
 		}
 		if len(announce) > 0 {
-			r.Hdr = append(r.Hdr, line(rt, "Trailer", strings.Join(announce, rapid.SampledFrom([]string{", ", ",", " , "}).Draw(rt, "tsep"))))
+			r.Hdr = append(r.Hdr, line(rt, "Trailer", strings.Join(announce, sample(rt, []string{", ", ",", " , "}, "tsep"))))
 		}
 	}
 	if last && chance(rt, 25, "close") {
@@ -244,14 +271,14 @@ func genRequest(rt *rapid.T, host string, connect bool, last bool, allowBig bool
 		}
 		// shuffle deterministically
 		for i := len(tokens) - 1; i > 0; i-- {
-			j := rapid.IntRange(0, i).Draw(rt, "shuf")
+			j := irange(rt, 0, i, "shuf")
 			tokens[i], tokens[j] = tokens[j], tokens[i]
 		}
 		split := len(tokens)
 		if len(tokens) > 1 && chance(rt, 30, "two-connection-lines") {
-			split = rapid.IntRange(1, len(tokens)-1).Draw(rt, "split")
+			split = irange(rt, 1, len(tokens)-1, "split")
 		}
-		sep := rapid.SampledFrom([]string{", ", ",", " , ", ",, "}).Draw(rt, "csep")
+		sep := sample(rt, []string{", ", ",", " , ", ",, "}, "csep")
 		r.Hdr = append(r.Hdr, line(rt, "Connection", strings.Join(tokens[:split], sep)))
 		if split < len(tokens) {
 			r.Hdr = append(r.Hdr, line(rt, "Connection", strings.Join(tokens[split:], sep)))
@@ -263,8 +290,8 @@ func genRequest(rt *rapid.T, host string, connect bool, last bool, allowBig bool
 	}
 	// shuffle field lines but keep the relative order of equal names
 	shuffleKeepingNameOrder(rt, r.Hdr)
-	r.HostPos = rapid.IntRange(0, len(r.Hdr)).Draw(rt, "hostpos")
-	r.FramePos = rapid.IntRange(0, len(r.Hdr)).Draw(rt, "framepos")
+	r.HostPos = irange(rt, 0, len(r.Hdr), "hostpos")
+	r.FramePos = irange(rt, 0, len(r.Hdr), "framepos")
 	return r
 }
 
@@ -278,7 +305,7 @@ func shuffleKeepingNameOrder(rt *rapid.T, h []kv) {
 		perm[i] = i
 	}
 	for i := len(perm) - 1; i > 0; i-- {
-		j := rapid.IntRange(0, i).Draw(rt, "hshuf")
+		j := irange(rt, 0, i, "hshuf")
 		perm[i], perm[j] = perm[j], perm[i]
 	}
 	// names in shuffled order; values of one name are then refilled in original order
@@ -301,12 +328,12 @@ func setAuth(rt *rapid.T, r *reqPlan, kind int) {
 	case authNone:
 		return
 	case authGood:
-		v = rapid.SampledFrom([]string{"Basic ", "Basic ", "basic ", "BASIC "}).Draw(rt, "scheme") + goodToken
+		v = sample(rt, []string{"Basic ", "Basic ", "basic ", "BASIC "}, "scheme") + goodToken
 	case authBad:
-		v = rapid.SampledFrom([]string{"Basic " + badToken, "Digest username=\"alice\"", "Basic", "Bearer " + goodToken,
-			"Basic " + goodToken[:len(goodToken)-4], "Basic " + strings.ToLower(goodToken)}).Draw(rt, "badcred")
+		v = sample(rt, []string{"Basic " + badToken, "Digest username=\"alice\"", "Basic", "Bearer " + goodToken,
+			"Basic " + goodToken[:len(goodToken)-4], "Basic " + strings.ToLower(goodToken)}, "badcred")
 	}
-	pos := rapid.IntRange(0, len(r.Hdr)).Draw(rt, "authpos")
+	pos := irange(rt, 0, len(r.Hdr), "authpos")
 	l := line(rt, "Proxy-Authorization", v)
 	r.Hdr = append(r.Hdr[:pos:pos], append([]kv{l}, r.Hdr[pos:]...)...)
 	if r.HostPos > pos {
@@ -314,17 +341,23 @@ func setAuth(rt *rapid.T, r *reqPlan, kind int) {
 	}
 }
 
-func genResponse(rt *rapid.T, host string, last bool, allowBig bool) respPlan {
+// calm: no event that ends the connection (used for the inner part of long pipelines, so that
+// deep pipelining is really reached).
+func genResponse(rt *rapid.T, host string, calm bool, allowBig bool) respPlan {
 	p := respPlan{Reason: "OK", FrameName: recase(rt, "Content-Length"), HeadCL: -1, TruncateAt: -1}
-	p.Status = rapid.SampledFrom([]int{200, 200, 200, 200, 200, 200, 201, 204, 206, 301, 302, 303, 307, 308, 304, 404, 500, 503}).Draw(rt, "status")
-	p.Reason = rapid.SampledFrom([]string{"OK", "", "Whatever It Is", "Found"}).Draw(rt, "reason")
-	n := rapid.IntRange(0, 5).Draw(rt, "nresp")
+	p.Status = sample(rt, []int{200, 200, 200, 200, 200, 200, 201, 204, 206, 301, 302, 303, 307, 308, 304, 404, 500, 503}, "status")
+	p.Reason = sample(rt, []string{"OK", "", "Whatever It Is", "Found"}, "reason")
+	n := irange(rt, 0, 5, "nresp")
 	for range n {
-		h := rapid.SampledFrom(respE2EPool).Draw(rt, "rh")
+		h := sample(rt, respE2EPool, "rh")
 		p.Hdr = append(p.Hdr, line(rt, h.K, h.V))
 	}
 	if p.Status/100 == 3 && p.Status != 304 {
-		loc := rapid.SampledFrom([]string{"http://" + host + "/moved", "/relative?x=1", "http://elsewhere.example/x", "https://" + host + "/tls", "../up"}).Draw(rt, "loc")
+		locs := []string{"http://" + host + "/moved", "/relative?x=1", "../up", "http://elsewhere.example/x", "https://" + host + "/tls"}
+		if calm {
+			locs = locs[:3]
+		}
+		loc := sample(rt, locs, "loc")
 		p.Hdr = append(p.Hdr, line(rt, "Location", loc))
 	}
 	var tokens []string
@@ -339,14 +372,14 @@ func genResponse(rt *rapid.T, host string, last bool, allowBig bool) respPlan {
 	if chance(rt, 5, "r-upgrade") {
 		p.Hdr = append(p.Hdr, line(rt, "Upgrade", "h2c"))
 	}
-	if chance(rt, 4, "r-close") {
+	if !calm && chance(rt, 2, "r-close") {
 		tokens = append(tokens, "close")
 	}
 	if len(tokens) > 0 {
 		p.Hdr = append(p.Hdr, line(rt, "Connection", strings.Join(tokens, ", ")))
 	}
 	kinds := []int{bodyCL, bodyCL, bodyCL, bodyCL, bodyCL, bodyChunked, bodyChunked, bodyChunked, bodyNone}
-	if p.Status == 200 && chance(rt, 6, "r-closedelim") {
+	if !calm && p.Status == 200 && chance(rt, 3, "r-closedelim") {
 		kinds = []int{bodyClose}
 	}
 	p.Body = genBody(rt, kinds, allowBig)
@@ -360,13 +393,13 @@ func genResponse(rt *rapid.T, host string, last bool, allowBig bool) respPlan {
 		}
 	}
 	if chance(rt, 60, "headcl") {
-		p.HeadCL = rapid.SampledFrom([]int{0, 1, 1234, 70000}).Draw(rt, "headclv")
+		p.HeadCL = sample(rt, []int{0, 1, 1234, 70000}, "headclv")
 	}
 	if chance(rt, 25, "interim") {
-		ni := rapid.IntRange(1, 2).Draw(rt, "ninterim")
+		ni := irange(rt, 1, 2, "ninterim")
 		for range ni {
 			ip := interimPlan{Status: 100, Reason: "Continue"}
-			switch rapid.IntRange(0, 3).Draw(rt, "ikind") {
+			switch irange(rt, 0, 3, "ikind") {
 			case 1:
 				ip = interimPlan{Status: 102, Reason: "Processing"}
 			case 2:
@@ -377,11 +410,11 @@ func genResponse(rt *rapid.T, host string, last bool, allowBig bool) respPlan {
 	}
 	p.InterimEarly = rapid.Bool().Draw(rt, "interim-early")
 	shuffleKeepingNameOrder(rt, p.Hdr)
-	if chance(rt, 4, "close-silently") {
+	if !calm && chance(rt, 2, "close-silently") {
 		p.CloseSilently = true
 	}
-	if p.Body.Kind != bodyClose && chance(rt, 4, "truncate") {
-		p.TruncateAt = rapid.IntRange(0, 1<<20).Draw(rt, "truncpos") // reduced modulo the length at use
+	if !calm && p.Body.Kind != bodyClose && chance(rt, 2, "truncate") {
+		p.TruncateAt = irange(rt, 0, 1<<20, "truncpos") // reduced modulo the length at use
 	}
 	return p
 }
@@ -389,7 +422,7 @@ func genResponse(rt *rapid.T, host string, last bool, allowBig bool) respPlan {
 var capPool = []int{0, 0, 0, 0, 1, 2, 64, 4096, 65536}
 
 func genReadPlan(rt *rapid.T, small bool) []int {
-	switch rapid.IntRange(0, 5).Draw(rt, "rplan") {
+	switch irange(rt, 0, 5, "rplan") {
 	case 0:
 		if small {
 			return []int{1}
@@ -406,7 +439,7 @@ func genReadPlan(rt *rapid.T, small bool) []int {
 }
 
 func genWritePlan(rt *rapid.T, small bool) []int {
-	switch rapid.IntRange(0, 6).Draw(rt, "wplan") {
+	switch irange(rt, 0, 6, "wplan") {
 	case 0:
 		if small {
 			return []int{-1}
@@ -436,29 +469,29 @@ func genPlan(rt *rapid.T) *plan {
 	p := &plan{ClientAbort: -1}
 	p.AuthEnabled = chance(rt, 35, "auth-enabled")
 	var n int
-	switch rapid.IntRange(0, 9).Draw(rt, "nclass") {
+	switch irange(rt, 0, 9, "nclass") {
 	case 0:
 		n = 1
 	case 1, 2, 3, 4, 5, 6:
-		n = rapid.IntRange(2, 5).Draw(rt, "n")
+		n = irange(rt, 2, 5, "n")
 	case 7, 8:
-		n = rapid.IntRange(6, 16).Draw(rt, "n")
+		n = irange(rt, 6, 16, "n")
 	default:
-		n = rapid.IntRange(17, 20).Draw(rt, "n")
+		n = irange(rt, 17, 20, "n")
 	}
-	switch rapid.IntRange(0, 4).Draw(rt, "wclass") {
+	switch irange(rt, 0, 4, "wclass") {
 	case 0:
 		p.Window = 1
 	case 1, 2:
 		p.Window = 20
 	default:
-		p.Window = rapid.IntRange(2, 20).Draw(rt, "window")
+		p.Window = irange(rt, 2, 20, "window")
 	}
 	allowBig := n <= 6
-	host := rapid.SampledFrom(hostPool).Draw(rt, "host")
+	host := sample(rt, hostPool, "host")
 	// failing authentication attempts first
 	if p.AuthEnabled {
-		nbad := rapid.SampledFrom([]int{0, 0, 1, 1, 2, 3}).Draw(rt, "nbad")
+		nbad := sample(rt, []int{0, 0, 1, 1, 2, 3}, "nbad")
 		for range nbad {
 			connect := chance(rt, 25, "bad-connect")
 			r := genRequest(rt, host, connect, false, false)
@@ -475,7 +508,7 @@ func genPlan(rt *rapid.T) *plan {
 			if chance(rt, 5, "bad-close") {
 				r.Hdr = append(r.Hdr, kv{"Connection", " close"})
 			}
-			setAuth(rt, &r, rapid.SampledFrom([]int{authNone, authBad, authBad}).Draw(rt, "badkind"))
+			setAuth(rt, &r, sample(rt, []int{authNone, authBad, authBad}, "badkind"))
 			p.Reqs = append(p.Reqs, r)
 		}
 	}
@@ -483,12 +516,12 @@ func genPlan(rt *rapid.T) *plan {
 	special := -1 // index (relative) of a host change or later CONNECT
 	specialKind := 0
 	if n >= 2 && chance(rt, 22, "special") {
-		special = rapid.IntRange(1, n-1).Draw(rt, "special-at")
-		specialKind = rapid.IntRange(0, 2).Draw(rt, "special-kind") // 0,1 host change; 2 CONNECT
+		special = irange(rt, 1, n-1, "special-at")
+		specialKind = irange(rt, 0, 2, "special-kind") // 0,1 host change; 2 CONNECT
 	}
 	closeAt := -1
 	if n >= 2 && chance(rt, 3, "early-close-token") {
-		closeAt = rapid.IntRange(0, n-2).Draw(rt, "close-at")
+		closeAt = irange(rt, 0, n-2, "close-at")
 	}
 	for i := range n {
 		h := host
@@ -497,7 +530,13 @@ func genPlan(rt *rapid.T) *plan {
 			if specialKind == 2 {
 				connect = true
 			} else {
-				h = rapid.SampledFrom(hostPool).Filter(func(s string) bool { return !strings.EqualFold(s, host) }).Draw(rt, "other-host")
+				var others []string
+				for _, s := range hostPool {
+					if !strings.EqualFold(s, host) {
+						others = append(others, s)
+					}
+				}
+				h = sample(rt, others, "other-host")
 			}
 		}
 		r := genRequest(rt, h, connect, i == n-1, allowBig)
@@ -506,20 +545,21 @@ func genPlan(rt *rapid.T) *plan {
 		}
 		switch {
 		case p.AuthEnabled && neverGood:
-			setAuth(rt, &r, rapid.SampledFrom([]int{authNone, authBad}).Draw(rt, "auth"))
+			setAuth(rt, &r, sample(rt, []int{authNone, authBad}, "auth"))
 			r.Expect = false
 			stripField(&r, "expect")
 		case p.AuthEnabled && i == 0:
 			setAuth(rt, &r, authGood)
 		case p.AuthEnabled:
-			setAuth(rt, &r, rapid.SampledFrom([]int{authGood, authGood, authNone, authBad}).Draw(rt, "auth"))
+			setAuth(rt, &r, sample(rt, []int{authGood, authGood, authNone, authBad}, "auth"))
 		default:
-			setAuth(rt, &r, rapid.SampledFrom([]int{authNone, authNone, authNone, authNone, authGood, authBad}).Draw(rt, "auth"))
+			setAuth(rt, &r, sample(rt, []int{authNone, authNone, authNone, authNone, authGood, authBad}, "auth"))
 		}
 		p.Reqs = append(p.Reqs, r)
 	}
 	for i := range n {
-		p.Resps = append(p.Resps, genResponse(rt, host, i == n-1, allowBig))
+		calm := n >= 6 && i < n-2 && !chance(rt, 2, "storm")
+		p.Resps = append(p.Resps, genResponse(rt, host, calm, allowBig))
 	}
 	if p.AuthEnabled {
 		// the body of a request that is going to be rejected must never look like HTTP
@@ -537,13 +577,13 @@ func genPlan(rt *rapid.T) *plan {
 	}
 	small := total < 6000
 	p.T = transportPlan{
-		CapC2P: rapid.SampledFrom(capPool).Draw(rt, "cap-c2p"), CapP2C: rapid.SampledFrom(capPool).Draw(rt, "cap-p2c"),
-		CapP2O: rapid.SampledFrom(capPool).Draw(rt, "cap-p2o"), CapO2P: rapid.SampledFrom(capPool).Draw(rt, "cap-o2p"),
+		CapC2P: sample(rt, capPool, "cap-c2p"), CapP2C: sample(rt, capPool, "cap-p2c"),
+		CapP2O: sample(rt, capPool, "cap-p2o"), CapO2P: sample(rt, capPool, "cap-o2p"),
 		PlanC2P: genReadPlan(rt, small), PlanO2P: genReadPlan(rt, small),
 		WriteC: genWritePlan(rt, small), WriteO: genWritePlan(rt, small),
 	}
 	if chance(rt, 5, "client-abort") {
-		p.ClientAbort = rapid.IntRange(0, max(0, total-1)).Draw(rt, "abort-at")
+		p.ClientAbort = irange(rt, 0, max(0, total-1), "abort-at")
 	}
 	return p
 }
